@@ -417,7 +417,7 @@ func evalC02(c *Ctx, cs *Case) {
 					cs.SetDoc(doc)
 					c.Rejournal(cs)
 				}
-				o := Guard(func() error { return gtree.OutputFromMarkdown(w, strings.NewReader(doc), opts...) })
+				o := Guard(func() error { return gtree.OutputFromMarkdown(w, MDReader(doc), opts...) })
 				_, failed, _ := w.Stats()
 				c.Eval(gen.HashString(fkey+"\x00fw"+strconv.Itoa(si*10+k)+cs.Entry), failed > 0)
 				if o.Panic != nil {
